@@ -24,8 +24,10 @@ def parseCall (c : String) : Bytes × List Value :=
   | p :: ps => (unhex p, ps.map parseParam)
   | [] => ([], [])
 
+/-- a "call" whose first word starts with `@` is a registry operation (`terminfo.LookupTerminfo` of that name) made between two
+evaluations: no argument of the evaluator, so the model skips it -/
 def parseCalls (payload : String) : List (Bytes × List Value) :=
-  (splitTrim payload ";").map parseCall
+  ((splitTrim payload ";").filter fun c => !(c.trimAscii.toString.startsWith "@")).map parseCall
 
 /-- `0-40,50,-1` → list of ints -/
 def intRanges (s : String) : List Int :=
